@@ -143,6 +143,7 @@ impl<M: Math, A: MassMatrixAdaptStrategy<M>> AdaptStrategy<M> for GlobalStrategy
                         "has_initial": self.has_initial_mass_matrix,
                         "tid": crate::transform::Transformation::transformation_id(
                             hamiltonian.transformation(), math),
+                        "tfp": crate::verif::transformation_fingerprint(math, hamiltonian.transformation()),
                         "tuning": self.tuning, "num_tune": self.num_tune,
                         "early_end": self.early_end, "final_window": self.final_step_size_window,
                         "early_freq": self.options.early_mass_matrix_switch_freq,
